@@ -27,9 +27,15 @@ for d in sorted(glob.glob('/verif/seeded/*/')):
         first = [l for l in txt.splitlines() if l.strip()]
         note = re.sub(r'^#+\s*', '', first[0])[:110] if first else ''
     kinds = ', '.join((own_latest or {}).get('kinds', [])[:2])
-    rows.append((name, note, 'yes' if (own_latest or {}).get('exit') == 1 else 'NO', kinds, ' '.join(others) or ('-' if all_latest else 'n/r')))
+    dp = os.path.join(d, 'DISPOSITION.md')
+    fires = 'yes' if (own_latest or {}).get('exit') == 1 else 'NO'
+    if fires == 'NO' and os.path.exists(dp):
+        fires = 'no - ' + open(dp).read().strip().split(':')[0]
+        kinds = open(dp).read().strip()[:160]
+    rows.append((name, note, fires, kinds, ' '.join(others) or ('-' if all_latest else 'n/r')))
 print('| seeded change | what it is | own check fires (quick) | violation kinds | other checks that also fire |')
 print('|---|---|---|---|---|')
 for r in rows:
     print('| ' + ' | '.join(r) + ' |')
-print(f'\n{len(rows)} seeded changes; own check fires on {sum(1 for r in rows if r[2] == "yes")}.')
+print(f'\n{len(rows)} seeded changes; own check fires on {sum(1 for r in rows if r[2] == "yes")}; '
+      f'not claimed by decision (see DISPOSITION.md in the directory): {sum(1 for r in rows if r[2].startswith("no - "))}.')
